@@ -245,6 +245,7 @@ ORDER_VARIANTS = {
     "early-solver": {"early_solver": True},    # SchedulingSolver(problem) first, the model afterwards, then solve()
     "two-phase": {"two_phase": True},          # declare a part, solve it, complete the model, NEW solver
     "interleaved": {"interleave": True},       # a (vacuous) resource constraint declared between two requirements
+    "second-solver": {"resolve": True},        # the complete model was already solved once by another solver object
 }
 
 
@@ -257,7 +258,12 @@ def order_variants(problems, rng, per_variant):
             cands = [p for p in cands if len({r["task"] for r in p["reqs"]} | {o["task"] for bf in p["buffers"] for o in bf["ops"]}) >= 2]
         if name == "interleaved":
             cands = [p for p in cands if sum(1 for r in p["reqs"] if r["type"] == "worker") >= 2]
-        for p in F_tasks.sample(rng, cands, per_variant) if len(cands) > per_variant else cands:
+        chosen = F_tasks.sample(rng, cands, per_variant) if len(cands) > per_variant else cands
+        if name == "second-solver":
+            # a second solver on a MULTI-objective problem re-creates the equivalent weighted objective: always part of it
+            multi = [p for p in cands if len(p["objs"]) >= 2 and p not in chosen]
+            chosen = chosen + (rng.sample(multi, 4) if len(multi) > 4 else multi)
+        for p in chosen:
             q = json.loads(json.dumps(p))
             q["variant"] = name
             q["_opts"] = {"build_kw": dict(bk)}
@@ -340,6 +346,13 @@ def union_family(fams, quick_each):
 RUNNERS = {}
 
 
+def _objective_pool(tier, seed):
+    """Problems that carry one or two objectives (a problem with valid schedules is solvable whatever it optimises)."""
+    from families import solver as F_solver
+    return F_tasks.number(F_solver.pool(["makespan", "flowtime", "two_min", "two_max", "two_min_w0", "max_bounded"],
+                                        shapes=("plain", "optional", "select", "variable", "buffer")))
+
+
 def register():
     from families import tasks, resources, optional, buffers, logic, indicators
     S, Cm = "sound", "complete"
@@ -354,7 +367,7 @@ def register():
     RUNNERS["C10"] = encoding_runner("C10", logic.fam_C10, {S, Cm}, mixed=("logic",))
     RUNNERS["C05"] = encoding_runner(
         "C05", union_family([tasks.fam_C01, tasks.fam_C02, tasks.fam_C03, resources.fam_C04,
-                             optional.fam_C06, buffers.fam_C09, logic.fam_C10], 150),
+                             optional.fam_C06, buffers.fam_C09, logic.fam_C10, _objective_pool], 150),
         {Cm}, {"soundness": False, "replay_per_problem": 2}, large=frozenset({Cm}),
         mixed=("basic", "task", "resource", "optional", "buffer", "logic"))
 
